@@ -47,6 +47,16 @@ def gen_cases(tier, seed):
             cls = c.split("/")[0]
         nw, nt = r.choice([(1, 1), (2, 1), (3, 2), (0, 1), (2, 0), (4, 3), (1, 2), (0, 0), (5, 1)])
         items = [["w", w] for w in r.sample(WORDS, nw)] + [["h", t] for t in r.sample(TAGS, nt)] + [["e", e]]
+        if r.random() < 0.35:
+            # a word made of a piece of the expression's own text ('row' of 'tomorrow', 'we' of 'wednesday'): whether it is
+            # inert is observed at run time; equality-by-substring slips hide here
+            ws = [w for w in re.split(r"[^A-Za-zäöüß]+", e) if len(w) >= 4]
+            if ws:
+                w = r.choice(ws)
+                a = r.randrange(0, len(w) - 1)
+                piece = w[a:a + r.randrange(2, 4)]
+                if len(piece) >= 2:
+                    items.append(["w", piece.lower()])
         r.shuffle(items)
         seps = [r.choice(SEPS) for _ in range(len(items) + 1)]
         cases.append({"items": items, "seps": seps, "ts": r.choice(TSS), "c": cls, "lead": r.random() < 0.2, "trail": r.random() < 0.2})
@@ -141,7 +151,10 @@ def run_case(case, ctx):
             probs.append(("time-word-leaked-into-subject", "words %r lie wholly inside matches the result was built from %s but are in the subject %r" % (leaked, sorted(prov)[:4], r_full.subject)))
         # was the whole expression consumed, and is everything else inert?
         non_inert = [w for (w, s, e) in toks if (w, s, e) not in inert]
-        consumed_all = sorted(non_inert) == sorted(inside)
+        # ... and every word that is not part of the expression must itself have been observed inert (a piece such as
+        # 'at' put next to 'late evening' becomes part of the expression and legitimately vanishes with it)
+        others = [x for k, w in case["items"] if k == "w" for x in re.split(r"[\s-]+", L.m._preprocess_string(w)) if x]
+        consumed_all = sorted(non_inert) == sorted(inside) and all(o in inert_words for o in others)
     # F. same labels and subject whether or not a time expression was found
     if consumed_all and r_noe.resolution is None:
         mon.events["no_match_path_compared"] += 1
